@@ -272,7 +272,7 @@ pub fn specs(quick: bool) -> Vec<Spec> {
 
 pub fn run(ctx: &Ctx) -> CheckOutput {
     let quick = ctx.tier == Tier::Quick;
-    let depth = if quick { 5 } else { 6 };
+    let depth = if quick { 5 } else { 7 };
     let mut jobs: Vec<Job> = vec![];
     for spec in specs(quick) {
         let single = spec.depth() <= 2;
